@@ -10,6 +10,8 @@ import json, os, re, subprocess, sys, time
 from concurrent.futures import ThreadPoolExecutor
 
 SEEDED = "/verif/seeded"
+ROOT = os.environ.get("SEEDS_CHECK_ROOT", "/verif")  # an older snapshot of /verif can be measured for comparison
+RESULT_TAG = os.environ.get("SEEDS_RESULT_TAG", "")
 ENV = dict(os.environ, CARGO_NET_OFFLINE="true")
 
 
@@ -19,7 +21,7 @@ def sh(cmd, cwd=None, env=None, timeout=7200):
 
 
 def lane_tree(i):
-    d = f"/tmp/wt/seedlane{i}"
+    d = f"/tmp/wt/seedlane{RESULT_TAG}{i}"
     if not os.path.exists(d):
         rc, out = sh(["git", "-C", "/repo", "worktree", "add", "-q", "--detach", d, "HEAD"])
         assert rc == 0, out
@@ -40,14 +42,14 @@ def run_seed(args):
     if rc != 0:
         return {"seed": seed, "error": "patch does not apply: " + out[-300:]}
     res = {"seed": seed, "property": prop, "tier": tier, "checks": {}}
-    outdir = f"/tmp/val/seeds/{seed}"
+    outdir = f"/tmp/val/seeds{RESULT_TAG}/{seed}"
     os.makedirs(outdir + "/evidence", exist_ok=True)
     os.makedirs(outdir + "/replay", exist_ok=True)
     try:
         for p in [prop] + [a for a in also if a != prop]:
             env = dict(ENV, VERIF_REPO=tree, VERIF_STALL="20", VERIF_EVIDENCE_DIR=outdir + "/evidence", VERIF_REPLAY_DIR=outdir + "/replay")
             t0 = time.time()
-            rc, out = sh(["/verif/check", p, tier], env=env)
+            rc, out = sh([os.path.join(ROOT, "check"), p, tier], env=env)
             sigs = []
             for rp in re.findall(r"^VIOLATION property=\S+ replay=(\S+)$", out, re.M):
                 try:
@@ -88,7 +90,7 @@ def main():
         for rs in ex.map(work, range(lanes)):
             results += rs
     results.sort(key=lambda r: r["seed"])
-    path = os.path.join(SEEDED, f"RESULTS-{tier}.json")
+    path = os.path.join(SEEDED, f"RESULTS-{tier}.json") if not RESULT_TAG else f"/tmp/val/RESULTS-{tier}{RESULT_TAG}.json"
     old = {}
     if os.path.exists(path):
         old = {r["seed"]: r for r in json.load(open(path))}
